@@ -1,20 +1,12 @@
 (* Driver for Model/IoWatch.v.  usage: modelrun_c14 < cases > results
    case:  <ring> <strict> ; ops ; beh0 | beh1 | ... ; fd answers ; batch / batch / ...
    (a batch is "fd:events,fd:events"; events in the POLL encoding) *)
-let pollbits = [ (1, `In); (2, `Pri); (4, `Out); (8, `Err); (16, `Hup); (0x2000, `Rdhup) ]
-let mask_of_poll (v : int) : mask =
-  { m_in = v land 1 <> 0; m_pri = v land 2 <> 0; m_out = v land 4 <> 0;
-    m_err = v land 8 <> 0; m_hup = v land 16 <> 0; m_rdhup = v land 0x2000 <> 0 }
-let poll_of_mask (m : mask) : int =
-  (if m.m_in then 1 else 0) lor (if m.m_pri then 2 else 0) lor (if m.m_out then 4 else 0) lor
-  (if m.m_err then 8 else 0) lor (if m.m_hup then 16 else 0) lor (if m.m_rdhup then 0x2000 else 0)
-(* UV_READABLE 1, UV_WRITABLE 2, UV_DISCONNECT 4, UV_PRIORITIZED 8 *)
-let mask_of_uv (v : int) : mask =
-  { m_in = v land 1 <> 0; m_out = v land 2 <> 0; m_rdhup = v land 4 <> 0; m_pri = v land 8 <> 0;
-    m_err = false; m_hup = false }
-let uv_of_mask (m : mask) : int =
-  (if m.m_in then 1 else 0) lor (if m.m_out then 2 else 0) lor (if m.m_rdhup then 4 else 0) lor
-  (if m.m_pri then 8 else 0)
+(* the integer encodings are the model's own tables (Model/IoWatch.v mask_of_uv, uv_of_mask,
+   mask_of_poll, poll_of_mask); here only int <-> Z *)
+let mask_of_poll (v : int) : mask = M_c14.mask_of_poll (z_of_int v)
+let poll_of_mask (m : mask) : int = int_of_z (M_c14.poll_of_mask m)
+let mask_of_uv (v : int) : mask = M_c14.mask_of_uv (z_of_int v)
+let uv_of_mask (m : mask) : int = int_of_z (M_c14.uv_of_mask m)
 
 let parse_op (tok : string) : op =
   let arg = String.sub tok 1 (String.length tok - 1) in
@@ -24,7 +16,7 @@ let parse_op (tok : string) : op =
   | 'O', sl :: _ -> OOpen (nat_ sl)
   | 'U', [a; b] -> ODup (nat_ a, nat_ b)
   | 'X', [sl] -> OCloseFd (nat_ sl)
-  | ('K' | 'D' | 'H' | 'G' | 'L'), _ -> OEnv
+  | ('K' | 'D' | 'H' | 'G' | 'L' | 'B' | 'W'), _ -> OEnv
   | 'I', [sl] -> OInit (nat_ sl)
   | 'J', [sl] -> ORawInit (nat_ sl)
   | 'S', [h; m] -> OStart (nat_ h, mask_of_uv (int_of_string m))
